@@ -60,7 +60,7 @@ def fixed_cases(tier):
 
 
 def n_generated(tier):
-    return 6000 if tier == "quick" else 60000
+    return 6000 if tier == "quick" else 40000
 
 
 def strategy(tier):
